@@ -321,6 +321,9 @@ def shape_slice(item, ob):
     ob.absorb_engine(E)
 
 def run_shape(item, ob):
+    if item[0] == 'pair':
+        from props import equiv
+        equiv.MIR = MIR; return equiv.run_item(item, ob)
     fam, payload = item
     {'word': shape_word, 'obj': shape_obj, 'slice': shape_slice}[fam](payload, ob)
 
@@ -350,6 +353,8 @@ def main(tier, seed, t0):
     kres = {}
     th_k = threading.Thread(target=lambda: kres.update(zip(('results', 'viol', 'inc', 'wall'), run_kani(tier))))
     th_k.start()
+    from props import equiv
+    equiv.MIR = MIR; equiv.preparse('C10'); items += equiv.items_for('C10')          # statement-level equivalences (props/equiv.py family C10)
     merged, per = pmap(run_shape, items, tier, jobs=max(2, NCPU - 2))
     th_k.join()
     merged['viol'] += kres.get('viol', []); merged['inconclusive'] += kres.get('inc', [{'obligation': 'kani', 'reason': 'kani thread failed'}])
